@@ -188,6 +188,7 @@ func readerFaultFeatures(rf simio.ReadFault, r *simio.SimReader, docLen int) map
 		"fault-at-eof":    rf.At >= docLen,
 		"fault-at-start":  rf.At == 0,
 		"transient":       rf.Transient,
+		"then-eof":        rf.ThenEOF,
 	}
 }
 
@@ -261,6 +262,12 @@ func c29Unmarshal(e *Env) Outcome {
 				return e.Finish(sig, nil, sc)
 			}
 			if bi == 0 && !try(base, simio.ReadFault{At: k, Transient: true}) {
+				return e.Finish(sig, nil, sc)
+			}
+			// sources that are not sticky: the error comes once (with or without
+			// data), then the source delivers the rest, or looks finished
+			if bi != 1 && (!try(base, simio.ReadFault{At: k, WithData: true, Transient: true}) ||
+				!try(base, simio.ReadFault{At: k, WithData: true, ThenEOF: true}) || !try(base, simio.ReadFault{At: k, ThenEOF: true})) {
 				return e.Finish(sig, nil, sc)
 			}
 		}
